@@ -203,7 +203,16 @@ TPM_RESULT TPM_MsaComposite_Load(TPM_MSA_COMPOSITE *tpm_msa_composite,
 	    rc = TPM_INVALID_STRUCTURE;
 	}
     }
-    /* FIXME add MSAlist limit */
+    /* MSAlist comes from the command: every entry is a digest that still has to be in the stream.  Without
+       this limit MSAlist * TPM_DIGEST_SIZE wraps in 32 bits (0x40000000 * 20 = 0: TPM_Malloc(0) is the
+       fatal TPM_FAIL; 0x40000001 * 20 = 20: the loop below then writes past the 20 byte array) */
+    if (rc == 0) {
+	if (tpm_msa_composite->MSAlist > (*stream_size / TPM_DIGEST_SIZE)) {
+	    printf("TPM_MsaComposite_Load: Error, MSAlist %u too large for stream_size %u\n",
+		   tpm_msa_composite->MSAlist, *stream_size);
+	    rc = TPM_BAD_PARAM_SIZE;
+	}
+    }
     /* allocate memory for the migAuthDigest array */
     if (rc == 0) {
 	rc = TPM_Malloc((unsigned char **)&(tpm_msa_composite->migAuthDigest),
